@@ -1047,6 +1047,12 @@ class _TRSTractList:
             elif isinstance(obj, cls._ok_iterables):
                 for obj_deeper in obj:
                     into.append(obj_deeper)
+            elif isinstance(obj, str):
+                # A string is iterable, but each character is again a
+                # string, so recursing into it would never terminate.
+                # (Only reached if strings are not acceptable elements.)
+                raise TypeError(
+                    f"{cls._typeerror_msg} Cannot accept {type(obj)!r}.")
             else:
                 # Assume it's another list-like object.
                 for obj_deeper in obj:
